@@ -14,16 +14,14 @@ import (
 
 const smtPrelude = `(set-option :produce-models true)
 (set-logic ALL)
-(declare-sort Str 0)
-(declare-sort F64 0)
+(declare-datatypes ((Str 0)) (((str_empty) (str_mk (str_id Int)))))
+(declare-datatypes ((F64 0)) (((f64_zero) (f64_mk (f64_id Int)))))
 (declare-datatypes ((Ptr 0)) (((mkptr (p_obj Int) (p_slot Int) (p_idx Int)))))
 (declare-datatypes ((Slice 0)) (((mkslice (s_obj Int) (s_slot Int) (s_off Int) (s_len Int) (s_cap Int)))))
 (declare-datatypes ((Iface 0)) (((mkiface (i_tid Int) (i_pl Ptr)))))
 (define-fun nilptr () Ptr (mkptr 0 0 0))
 (define-fun nilslice () Slice (mkslice 0 0 0 0 0))
 (define-fun niliface () Iface (mkiface 0 nilptr))
-(declare-const str_empty Str)
-(declare-const f64_zero F64)
 (declare-fun str_len (Str) Int)
 (declare-fun str_lt (Str Str) Bool)
 (declare-fun str_concat (Str Str) Str)
